@@ -285,4 +285,301 @@ theorem restrict_eq_mapIdx (f : Nat → CM (Nat × List QV)) (n : Nat) (rs : Lis
   · rw [hout i (by omega)]
     simp only [QResult.get?, h2 i (fun h => hi (List.mem_range.mp h)), Option.map_none]
 
+variable {α : Type}
+
+theorem insertPos_perm (p : Nat × α) (l : List (Nat × α)) : (insertPos p l).Perm (p :: l) := by
+  induction l with
+  | nil => exact List.Perm.refl _
+  | cons q qs ih =>
+    simp only [insertPos]
+    split
+    · exact List.Perm.refl _
+    · exact (List.Perm.cons q ih).trans (List.Perm.swap p q qs)
+
+theorem sortByPos_perm (l : List (Nat × α)) : (sortByPos l).Perm l := by
+  induction l with
+  | nil => exact List.Perm.refl _
+  | cons p ps ih =>
+    show (insertPos p (sortByPos ps)).Perm (p :: ps)
+    exact (insertPos_perm p _).trans (List.Perm.cons p ih)
+
+theorem insertPos_sorted (p : Nat × α) (l : List (Nat × α)) (h : l.Pairwise (fun a b => a.1 ≤ b.1)) :
+    (insertPos p l).Pairwise (fun a b => a.1 ≤ b.1) := by
+  induction l with
+  | nil => exact List.pairwise_singleton _ _
+  | cons q qs ih =>
+    simp only [insertPos]
+    rw [List.pairwise_cons] at h
+    split
+    · next hle =>
+      rw [List.pairwise_cons]
+      refine ⟨?_, List.pairwise_cons.mpr h⟩
+      intro x hx
+      rcases List.mem_cons.mp hx with rfl | hx
+      · exact hle
+      · exact Nat.le_trans hle (h.1 x hx)
+    · next hnle =>
+      rw [List.pairwise_cons]
+      refine ⟨?_, ih h.2⟩
+      intro x hx
+      have := (insertPos_perm p qs).subset hx
+      rcases List.mem_cons.mp this with rfl | hx
+      · omega
+      · exact h.1 x hx
+
+theorem sortByPos_sorted (l : List (Nat × α)) : (sortByPos l).Pairwise (fun a b => a.1 ≤ b.1) := by
+  induction l with
+  | nil => exact List.Pairwise.nil
+  | cons p ps ih => exact insertPos_sorted p _ ih
+
+theorem enumFrom_map_snd (k : Nat) (l : List α) : (enumFrom k l).map (·.2) = l := by
+  induction l generalizing k with
+  | nil => rfl
+  | cons x xs ih => simp only [enumFrom, List.map_cons, ih]
+
+theorem mem_enumFrom (k : Nat) (l : List α) (r : Nat) (x : α) :
+    (r, x) ∈ enumFrom k l ↔ k ≤ r ∧ l[r - k]? = some x := by
+  induction l generalizing k with
+  | nil => simp [enumFrom]
+  | cons y ys ih =>
+    simp only [enumFrom, List.mem_cons, Prod.mk.injEq, ih]
+    constructor
+    · rintro (⟨rfl, rfl⟩ | ⟨h1, h2⟩)
+      · simp
+      · refine ⟨by omega, ?_⟩
+        rw [show r - k = (r - (k + 1)) + 1 by omega, List.getElem?_cons_succ]; exact h2
+    · rintro ⟨h1, h2⟩
+      by_cases hr : r = k
+      · left; subst hr; simp at h2; exact ⟨rfl, h2.symm⟩
+      · right
+        refine ⟨by omega, ?_⟩
+        rw [show r - k = (r - (k + 1)) + 1 by omega, List.getElem?_cons_succ] at h2; exact h2
+
+theorem enumFrom_pairwise (k : Nat) (l : List α) : (enumFrom k l).Pairwise (fun a b => a.1 < b.1) := by
+  induction l generalizing k with
+  | nil => exact List.Pairwise.nil
+  | cons y ys ih =>
+    simp only [enumFrom]
+    rw [List.pairwise_cons]
+    refine ⟨?_, ih (k + 1)⟩
+    intro p hp
+    have := (mem_enumFrom (k + 1) ys p.1 p.2).mp hp
+    omega
+
+/-- sorting the entries a slice picks from a list with increasing keys = keeping, in list order, the entries
+    whose rank the slice lists -/
+theorem sort_pick (l : List (Nat × α)) (hl : l.Pairwise (fun a b => a.1 < b.1)) (idxs : List Nat) (hn : idxs.Nodup) :
+    sortByPos (idxs.filterMap (fun i => l[i]?)) =
+      ((enumFrom 0 l).filter (fun p => decide (p.1 ∈ idxs))).map (·.2) := by
+  have hsub : (((enumFrom 0 l).filter (fun p => decide (p.1 ∈ idxs))).map (·.2)).Sublist l := by
+    have := (List.filter_sublist (p := fun p => decide (p.1 ∈ idxs)) (l := enumFrom 0 l)).map (·.2)
+    rwa [enumFrom_map_snd] at this
+  have hkeys : ∀ a b, a ∈ l → b ∈ l → a.1 ≤ b.1 → b.1 ≤ a.1 → a = b := by
+    intro a b ha hb h1 h2
+    obtain ⟨i, hi, rfl⟩ := List.mem_iff_getElem.mp ha
+    obtain ⟨j, hj, rfl⟩ := List.mem_iff_getElem.mp hb
+    rw [List.pairwise_iff_getElem] at hl
+    rcases Nat.lt_trichotomy i j with h | h | h
+    · have := hl i j hi hj h; omega
+    · subst h; rfl
+    · have := hl j i hj hi h; omega
+  have hnd : l.Nodup := hl.imp (fun {a b} h hab => by rw [hab] at h; exact Nat.lt_irrefl _ h)
+  apply List.Perm.eq_of_pairwise (le := fun a b => a.1 ≤ b.1)
+  · intro a b ha hb
+    have ha' : a ∈ l := by
+      have := (sortByPos_perm _).subset ha
+      obtain ⟨i, _, hi⟩ := List.mem_filterMap.mp this
+      exact List.mem_of_getElem? hi
+    exact hkeys a b ha' (hsub.subset hb)
+  · exact sortByPos_sorted _
+  · exact (hl.sublist hsub).imp (fun h => Nat.le_of_lt h)
+  · refine (sortByPos_perm _).trans ?_
+    rw [List.perm_ext_iff_of_nodup]
+    · intro x
+      simp only [List.mem_filterMap, List.mem_map, List.mem_filter, decide_eq_true_eq]
+      constructor
+      · rintro ⟨i, hi, hx⟩
+        exact ⟨(i, x), ⟨(mem_enumFrom 0 l i x).mpr ⟨Nat.zero_le _, hx⟩, hi⟩, rfl⟩
+      · rintro ⟨⟨i, y⟩, ⟨hm, hi⟩, rfl⟩
+        exact ⟨i, hi, ((mem_enumFrom 0 l i y).mp hm).2⟩
+    · -- the picked entries are distinct: distinct ranks give distinct entries
+      rw [List.Nodup, List.pairwise_filterMap]
+      refine hn.imp ?_
+      intro i j hij x hx y hy hxy
+      subst hxy
+      have hi : i < l.length := by
+        rcases Nat.lt_or_ge i l.length with h | h
+        · exact h
+        · rw [List.getElem?_eq_none h] at hx; cases hx
+      have hj : j < l.length := by
+        rcases Nat.lt_or_ge j l.length with h | h
+        · exact h
+        · rw [List.getElem?_eq_none h] at hy; cases hy
+      rw [List.getElem?_eq_getElem hi] at hx
+      rw [List.getElem?_eq_getElem hj] at hy
+      rw [List.pairwise_iff_getElem] at hl
+      rcases Nat.lt_trichotomy i j with h | h | h
+      · have := hl i j hi hj h
+        rw [Option.some.inj hx, Option.some.inj hy] at this; exact Nat.lt_irrefl _ this
+      · exact hij h
+      · have := hl j i hj hi h
+        rw [Option.some.inj hx, Option.some.inj hy] at this; exact Nat.lt_irrefl _ this
+    · exact hnd.sublist hsub
+
+theorem enumFrom_filter_snd (q : α → Bool) (k : Nat) (l : List α) :
+    ((enumFrom k l).filter (fun p => q p.2)).map (·.2) = l.filter q := by
+  induction l generalizing k with
+  | nil => rfl
+  | cons x xs ih =>
+    simp only [enumFrom, List.filter_cons]
+    split
+    · simp only [List.map_cons, ih]
+    · exact ih (k + 1)
+
+theorem enumFrom_map {β : Type} (f : α → β) (k : Nat) (l : List α) :
+    enumFrom k (l.map f) = (enumFrom k l).map (fun p => (p.1, f p.2)) := by
+  induction l generalizing k with
+  | nil => rfl
+  | cons x xs ih => simp only [List.map_cons, enumFrom, ih]
+
+theorem pick_map {β : Type} (f : α → β) (P : Nat → Bool) (l : List α) :
+    (((enumFrom 0 l).filter (fun p => P p.1)).map (·.2)).map f =
+      ((enumFrom 0 (l.map f)).filter (fun p => P p.1)).map (·.2) := by
+  rw [enumFrom_map, List.filter_map, List.map_map, List.map_map]
+  rfl
+
+theorem sortByPos_toList (o : Option (Nat × α)) : sortByPos (o.toList ++ []) = o.toList := by
+  cases o <;> rfl
+
+/-- `filter_for_entities` when nothing is "kept" (separator other than `>`): the matches, the slice applied,
+    document order -/
+theorem filterEnt_eq (c : Comp) (cls : α → Match) (xs : List α) (hk : ∀ x ∈ xs, cls x ≠ .keep)
+    (hs : Spec.sliceOK c.slice = true) :
+    filterEnt c cls xs = .ok (Spec.pickSel c.slice (xs.filter (fun x => cls x = .hit))) := by
+  have hkept : (enumFrom 0 xs).filter (fun p => cls p.2 = .keep) = [] := by
+    rw [List.filter_eq_nil_iff]
+    intro p hp
+    have : p.2 ∈ xs := by
+      have := List.mem_map_of_mem (f := (·.2)) hp
+      rwa [enumFrom_map_snd] at this
+    simpa using hk p.2 this
+  have hm : ((enumFrom 0 xs).filter (fun p => cls p.2 = .hit)).map (·.2) = xs.filter (fun x => cls x = .hit) :=
+    enumFrom_filter_snd (fun x => decide (cls x = .hit)) 0 xs
+  unfold filterEnt
+  simp only [hkept]
+  cases hsl : c.slice with
+  | idx k =>
+    rw [hsl] at hs
+    have hk0 : 0 ≤ k := by simpa [Spec.sliceOK] using hs
+    simp only [if_pos hk0, sortByPos_toList, Spec.pickSel]
+    have : ∀ o : Option (Nat × α), o.toList.map (·.2) = (o.map (·.2)).toList := by intro o; cases o <;> rfl
+    rw [this, ← List.getElem?_map, hm]
+    split <;> rfl
+  | range a b s =>
+    rw [hsl] at hs
+    have hs0 : ¬ s = some 0 := by simpa [Spec.sliceOK] using hs
+    simp only [if_neg hs0, List.append_nil, applySlice, Spec.pickSel]
+    have hpw := (enumFrom_pairwise 0 xs).sublist (List.filter_sublist (p := fun p => decide (cls p.2 = .hit)))
+    rw [← hm]
+    generalize (enumFrom 0 xs).filter (fun p => decide (cls p.2 = .hit)) = M at hpw ⊢
+    rw [sort_pick M hpw (pySlice (.range a b s) M.length) (pySliceStep_nodup a b _ _), List.length_map]
+    rw [pick_map (fun (x : Nat × α) => x.2) (fun i => decide (i ∈ pySlice (.range a b s) M.length)) M]
+
+theorem pickSel_map {β : Type} (f : α → β) (sl : Slice) (ms : List α) :
+    (Spec.pickSel sl ms).map f = Spec.pickSel sl (ms.map f) := by
+  cases sl with
+  | idx k =>
+    simp only [Spec.pickSel, List.getElem?_map]
+    cases ms[k.toNat]? <;> rfl
+  | range a b s =>
+    simp only [Spec.pickSel, List.length_map]
+    exact pick_map f (fun i => decide (i ∈ pySlice (.range a b s) ms.length)) ms
+
+theorem pickSel_subset (sl : Slice) (ms : List α) : ∀ x ∈ Spec.pickSel sl ms, x ∈ ms := by
+  intro x hx
+  cases sl with
+  | idx k =>
+    simp only [Spec.pickSel] at hx
+    cases h : ms[k.toNat]? with
+    | none => rw [h] at hx; exact absurd hx List.not_mem_nil
+    | some y =>
+      rw [h] at hx
+      simp only [Option.toList, List.mem_singleton] at hx
+      subst hx; exact List.mem_of_getElem? h
+  | range a b s =>
+    simp only [Spec.pickSel] at hx
+    have h1 : x ∈ (enumFrom 0 ms).map (·.2) :=
+      (List.filter_sublist.map _).subset hx
+    rwa [enumFrom_map_snd] at h1
+
+theorem contList_length (ds : List DDesc) (ns : List Node) (c : Comp) (rest : List Comp) :
+    (contList ds ns c rest).length = ns.length := by
+  induction ns with
+  | nil => simp [contList]
+  | cons n ns ih => simp [contList, ih]
+
+theorem contList_last (ds : List DDesc) (c : Comp) (ns : List Node) :
+    ∀ p ∈ ns.zip (contList ds ns c []), nodeMatch ds c p.1 = .hit → p.2 = .ok [.node p.1] := by
+  induction ns with
+  | nil => intro p hp; simp [contList] at hp
+  | cons n ns ih =>
+    intro p hp hhit
+    simp only [contList, List.zip_cons_cons, List.mem_cons] at hp
+    rcases hp with rfl | hp
+    · simp only [] at hhit
+      simp only [hhit, contOf, List.isEmpty_nil, if_true]
+    · exact ih p hp hhit
+
+theorem concatConts_nodes (l : List (Node × Cont)) (h : ∀ p ∈ l, p.2 = .ok [.node p.1]) :
+    concatConts (l.map (·.2)) = .ok (l.map (fun p => Hit.node p.1)) := by
+  induction l with
+  | nil => rfl
+  | cons p ps ih =>
+    simp only [List.map_cons, concatConts, h p (List.mem_cons_self),
+      ih (fun q hq => h q (List.mem_cons_of_mem _ hq))]
+    rfl
+
+theorem zip_filter_fst (q : Node → Bool) (ns : List Node) (cs : List Cont) (hl : cs.length = ns.length) :
+    ((ns.zip cs).filter (fun p => q p.1)).map (·.1) = ns.filter q := by
+  induction ns generalizing cs with
+  | nil => simp
+  | cons n ns ih =>
+    cases cs with
+    | nil => simp at hl
+    | cons c cs =>
+      simp only [List.zip_cons_cons, List.filter_cons]
+      simp only [List.length_cons, Nat.add_right_cancel_iff] at hl
+      split
+      · simp only [List.map_cons, ih cs hl]
+      · exact ih cs hl
+
+/-- one child step at the top level: the nodes whose label is the id, the slice applied, document order -/
+theorem processOne_last (ds : List DDesc) (tree : List Node) (c : Comp) (hsep : c.sep ≠ '.')
+    (hnk : ∀ n ∈ tree, nodeMatch ds c n ≠ .keep)
+    (hs : Spec.sliceOK c.slice = true) :
+    processOne ds tree [c] =
+      .ok ((Spec.pickSel c.slice (tree.filter (fun n => nodeLabel ds n = some c.id))).map Hit.node) := by
+  have hcls : ∀ n, nodeMatch ds c n = .hit ↔ nodeLabel ds n = some c.id := by
+    intro n
+    by_cases h : nodeLabel ds n = some c.id
+    · simp [nodeMatch, h]
+    · simp only [nodeMatch, h, if_false, iff_false]
+      split
+      · split <;> simp
+      · simp
+  simp only [processOne, if_neg hsep, selectRun]
+  rw [filterEnt_eq c _ _ (fun p hp => hnk p.1 (List.of_mem_zip hp).1) hs]
+  simp only
+  rw [concatConts_nodes _ (fun p hp => by
+    have hp' := pickSel_subset _ _ p hp
+    rw [List.mem_filter] at hp'
+    exact contList_last ds c tree p hp'.1 (by simpa using hp'.2))]
+  congr 1
+  rw [show (fun p : Node × Cont => Hit.node p.1) = Hit.node ∘ (·.1) from rfl, ← List.map_map, pickSel_map]
+  congr 2
+  rw [zip_filter_fst (fun n => decide (nodeMatch ds c n = .hit)) _ _ (contList_length ds tree c [])]
+  congr 1
+  funext n
+  simp only [hcls]
+
 end Bufr.C16
